@@ -77,6 +77,13 @@ type replayFile struct {
 	Params  map[string]int    `json:"params,omitempty"`
 	Known   []string          `json:"known,omitempty"`
 	Notes   []string          `json:"notes,omitempty"`
+	Batch   []replayCase      `json:"batch,omitempty"`
+}
+
+type replayCase struct {
+	Harness string            `json:"harness"`
+	Inputs  []interp.InputVal `json:"inputs"`
+	Params  map[string]int    `json:"params,omitempty"`
 }
 
 // CmdCheck: gosym check <ID> <quick|thorough>
@@ -169,6 +176,8 @@ func CmdCheck(args []string) int {
 	rc := 0
 	var violationLines []string
 	var problems []string
+	var batch []replayCase
+	batchPkg := ""
 	for _, r := range p.Runs {
 		if (tier == "quick" && r.ThoroughOnly) || (tier == "thorough" && r.QuickOnly) {
 			continue
@@ -224,6 +233,12 @@ func CmdCheck(args []string) int {
 			label += "@" + arch
 		}
 		ev.addRun(label, params, st, p.Units)
+		if arch == "amd64" && len(st.Violations) == 0 && (batchPkg == "" || batchPkg == r.Pkg) {
+			batchPkg = r.Pkg
+			for _, sm := range st.Samples {
+				batch = append(batch, replayCase{Harness: r.Func, Inputs: sm, Params: params})
+			}
+		}
 		fmt.Printf("%-40s paths=%d asserts=%d discharged=%d undecided=%d violations=%d problems=%d  %.1fs (solver %.1fs)\n",
 			label, st.Paths, sumMap(st.Asserts), st.Discharged, len(st.Undecided), len(st.Violations), len(st.Problems), st.Wall.Seconds(), st.SolverTime.Seconds())
 		// vacuity: every assert id seen in the source must have been evaluated
@@ -272,6 +287,32 @@ func CmdCheck(args []string) int {
 			}
 			res, out := nativeReplay(path, r.Pkg)
 			handleReplay(&rc, &violationLines, &problems, ev, id, path, label, v, res, out)
+		}
+	}
+	// translator validation: sampled symbolic paths re-run natively against
+	// the real build; every assertion must hold there too and every input
+	// must be consumed in the same order.
+	if len(batch) > 0 && os.Getenv("VERIF_NO_NATIVE_SAMPLES") == "" {
+		path := filepath.Join(VerifDir, "replays", id, "samples-"+tier+".json")
+		if err := writeJSON(path, replayFile{Harness: "batch", Pkg: batchPkg, Batch: batch}); err != nil {
+			fmt.Fprintln(os.Stderr, err)
+			return 2
+		}
+		_, out := nativeReplay(path, batchPkg)
+		pass, fail := -1, -1
+		for _, l := range strings.Split(out, "\n") {
+			if strings.HasPrefix(l, "VERIF-BATCH: ") {
+				fmt.Sscanf(l, "VERIF-BATCH: passed=%d failed=%d", &pass, &fail)
+			}
+			if strings.HasPrefix(l, "VERIF-BATCH-FAIL") {
+				problems = append(problems, "engine/native disagreement on a sampled path: "+l)
+			}
+		}
+		if pass < 0 {
+			problems = append(problems, "native validation of sampled paths did not run: "+lastLines(out, 5))
+		} else {
+			ev.validated = pass
+			fmt.Printf("native validation of sampled paths: %d passed, %d failed\n", pass, fail)
 		}
 	}
 	ev.KnownFindings = knownLines
@@ -458,6 +499,36 @@ func nativeReplayArch(replayPath, pkg, arch string) (string, string) {
 	sb.WriteString("}\n\n")
 	sb.WriteString(`func TestVerifReplay(t *testing.T) {
 	vLoadReplay()
+	if len(vReplay.Batch) > 0 {
+		pass, fail := 0, 0
+		for i, c := range vReplay.Batch {
+			vSetCase(c)
+			h := vHarnesses[c.Harness]
+			bad := ""
+			func() {
+				defer func() {
+					if r := recover(); r != nil {
+						bad = fmt.Sprint("panic: ", r)
+					}
+				}()
+				h()
+			}()
+			if bad == "" && len(vFailures) > 0 {
+				bad = fmt.Sprint("failed ", vFailures)
+			}
+			if bad == "" && vReplayPos != len(c.Inputs) {
+				bad = fmt.Sprintf("consumed %d of %d inputs (path diverged)", vReplayPos, len(c.Inputs))
+			}
+			if bad != "" {
+				fail++
+				fmt.Printf("VERIF-BATCH-FAIL: case %d harness %s: %s\n", i, c.Harness, bad)
+			} else {
+				pass++
+			}
+		}
+		fmt.Printf("VERIF-BATCH: passed=%d failed=%d\n", pass, fail)
+		return
+	}
 	h := vHarnesses[vReplay.Harness]
 	if h == nil {
 		t.Fatalf("VERIF-REPLAY: unknown harness %q", vReplay.Harness)
